@@ -179,6 +179,33 @@ let () =
       let sh = List.map (fun s -> hex_of_bytes s.w_name ^ ":" ^ string_of_z s.w_id ^ ":" ^ (if s.w_state = Z0 then "v" else "h") ^ ":" ^ string_of_z s.w_content) wb.sheets in
       "active=" ^ string_of_z (active_index wb) ^ " " ^ String.concat " " sh ^ " consistent=" ^ str_bool (consistent wb))
 
+let parse_eop (tok : string) : eop =
+  match String.split_on_char ',' tok with
+  | ["IR"; r; n] -> EInsertRows (z_of_string r, z_of_string n)
+  | ["RR"; r] -> ERemoveRow (z_of_string r)
+  | ["IC"; c; n] -> EInsertCols (z_of_string c, z_of_string n)
+  | ["RC"; c] -> ERemoveCol (z_of_string c)
+  | _ -> EBase (parse_op tok)
+
+let () =
+  reg "sheet.erun" (fun a -> match a with
+    | c0 :: r0 :: w :: h :: ops ->
+      let c0 = int_of_string c0 and r0 = int_of_string r0 and w = int_of_string w and h = int_of_string h in
+      let sh = erun (List.map parse_eop ops) empty_sheet in
+      let buf = Buffer.create 256 in
+      for r = r0 to r0 + h - 1 do
+        for c = c0 to c0 + w - 1 do
+          if Buffer.length buf > 0 then Buffer.add_char buf ' ';
+          (* formula text is rewritten by structural edits (C07); only its presence is compared here *)
+          let (((t, v), f), st0) = observe sh (z_of_int c) (z_of_int r) in
+          let f' = (match f with Some _ -> Some [] | None -> None) in
+          Buffer.add_string buf (show_obs (((t, v), f'), st0) (get_cell_style sh (z_of_int c) (z_of_int r)))
+        done
+      done;
+      let ms = List.map (fun (((x1, y1), x2), y2) -> String.concat "," (List.map string_of_z [x1; y1; x2; y2])) sh.merges in
+      Buffer.contents buf ^ " |M " ^ String.concat ";" (List.sort compare ms)
+    | _ -> "bad-args")
+
 let () =
   reg "c17.run" (fun a ->
       let (ids, r) = run_styles (List.map z_of_string a) init_reg in
